@@ -194,5 +194,27 @@ func Reps(nLam int) []IdxRep {
 		}
 	}
 
+	// point-specific scalings that make the stored X resp. Y limbs of G and H a sparse pattern ({1,0,0,0}, the
+	// Montgomery form of 1, {2^32,0,0,0}): fast paths keyed on a coordinate "being one" or "being small" fire here
+	if nLam == 0 || nLam >= 4 {
+		patterns := [][4]uint64{{1, 0, 0, 0}, ref.Mont(big.NewInt(1), ref.P), {1 << 32, 0, 0, 0}}
+
+		for i, np := range Points() {
+			if np.Name != "G" && np.Name != "H" {
+				continue
+			}
+
+			for _, pat := range patterns {
+				want := ref.Unmont(pat, ref.P) // the value whose stored limbs are pat
+				for _, coord := range []*big.Int{np.P.X, np.P.Y} {
+					l := ref.Fp.Mul(want, ref.Fp.Inv0(coord))
+					if l.Sign() != 0 {
+						out = append(out, IdxRep{Rep{np.P, l}, i})
+					}
+				}
+			}
+		}
+	}
+
 	return out
 }
